@@ -93,6 +93,7 @@ func Run(run *ev.Run) {
 			mand = append(mand, "http:grant-reached-storage:"+g+":"+rn)
 		}
 		mand = append(mand, "http:storage-fault-fired:"+rn)
+		mand = append(mand, storErrMandatory(rn, run.Tier == ev.Thorough)...)
 	}
 	run.Mandatory(mand...)
 
@@ -158,6 +159,7 @@ func runCase(run *ev.Run, fl *inflight, worker, caseIdx, router int) {
 		return
 	}
 	x.fl = fl
+	x.fr = run.CaseRand(streamStorErr, caseIdx)
 	run.Count("http:world_caps", v.Caps.String())
 	run.Count("http:world_issuer_mode", v.IssuerMode)
 	if pi := mon.Catch(func() {
@@ -168,18 +170,24 @@ func runCase(run *ev.Run, fl *inflight, worker, caseIdx, router int) {
 			// one request in five also meets a failing storage: the k-th storage call of the request answers an
 			// injected error (three kinds). Whatever the handler answers, the structural obligations stay the same:
 			// no panic, one response, nothing mutating after an error answer.
+			// Half of these faults answer one of the three built-in kinds, the other half an error VALUE of the
+			// catalogue in storerr.go (every *oidc.Error type, undeclared codes, wrapped / joined / StatusError
+			// shapes, own error types).
 			if x.r.IntN(5) == 0 {
-				x.w.Store.Arm(&vstore.FaultPlan{At: 1 + x.r.IntN(6), Kind: vstore.FaultKind(x.r.IntN(int(vstore.NumFaultKinds)))})
-				resp := x.exec(q, router)
-				if x.w.Store.Fired() > 0 {
-					run.Count("http:storage_fault_fired", fmt.Sprintf("%s %s -> %d", x.rname, x.endpointOf(router, pathOf(q)), resp.Status))
-					run.Observed("http:storage-fault-fired:" + x.rname)
+				plan := &vstore.FaultPlan{At: 1 + x.r.IntN(6), Kind: vstore.FaultKind(x.r.IntN(int(vstore.NumFaultKinds)))}
+				lit := &faultLit{At: plan.At, Kind: []string{"plain", "deadline", "oidc-server-error"}[plan.Kind]}
+				if x.fr.IntN(2) == 0 {
+					se := x.drawStorErr()
+					plan.Err, lit.Value, lit.Kind = se.err, se, ""
 				}
-				x.w.Store.Arm(nil)
+				x.execWithFault(q, router, plan, lit)
 				continue
 			}
 			x.exec(q, router)
 		}
+		// fault at a point x error value: requests valid as drawn against a storage whose method M answers a value
+		// of the catalogue
+		x.storageErrorSweep(router)
 	}); pi != nil {
 		// panics inside handlers are caught by opdrv.Serve; what arrives here blew up in the generator or oracle
 		run.HarnessBug(fmt.Sprintf("fronthttp: case %d router %s: %s at %s\n%s", caseIdx, x.rname, pi.Value, pi.Frame, trim(pi.Stack, 3000)))
@@ -248,12 +256,13 @@ type respLit struct {
 	Status           int                 `json:"status"`
 	WriteHeaderCalls int                 `json:"write_header_calls"`
 	Superfluous      []int               `json:"superfluous_write_header_codes,omitempty"`
+	Codes            []int               `json:"write_header_codes,omitempty"`
 	Header           map[string][]string `json:"header,omitempty"`
 	Body             Lit                 `json:"body"`
 }
 
 func litResp(resp *opdrv.Resp) respLit {
-	return respLit{Status: resp.Status, WriteHeaderCalls: resp.WriteHeaderCalls, Superfluous: resp.SuperfluousCodes, Header: resp.SentHeader, Body: Lit(resp.Body.String())}
+	return respLit{Status: resp.Status, WriteHeaderCalls: resp.WriteHeaderCalls, Superfluous: resp.SuperfluousCodes, Codes: resp.Codes, Header: resp.SentHeader, Body: Lit(resp.Body.String())}
 }
 
 // isErrorResponse: an HTTP error status, or a redirect that carries an OAuth error to the client.
@@ -364,6 +373,9 @@ func (x *world) judge(q *Req, router int, resp *opdrv.Resp) {
 			}
 		}
 	}
+	if !q.Flow {
+		x.noteCalls(q.Op, journal)
+	}
 	for _, e := range journal {
 		run.Count("http:storage_calls", e.Method)
 		if e.Err != "" && !e.Fault {
@@ -435,6 +447,19 @@ func (x *world) judge(q *Req, router int, resp *opdrv.Resp) {
 	run.Distinct(strings.Join([]string{"http", rn, q.Op, dimMuts(q.Muts), dimTags(q.Tags), fmt.Sprint(status)}, "|"))
 
 	// ----- 2. a response, written once -----
+	// every status code handed to WriteHeader must be one a server can send: net/http's server panics on a code outside
+	// 100..999 ("invalid WriteHeader code"), the recorder stores it and carries on (Status stays 0 after WriteHeader(0)
+	// and becomes 200 with the first body byte), so the literal codes are judged, not only the resulting status
+	for _, c := range resp.Codes {
+		if c < 100 || c > 599 {
+			how := "not a status code a response can carry"
+			if c < 100 || c > 999 {
+				how = "net/http's server panics on it: invalid WriteHeader code"
+			}
+			violate("invalid-status:"+endpoint, fmt.Sprintf("%s router: handler of %s called WriteHeader(%d) (%s)", rn, endpoint, c, how), map[string]any{"write_header_codes": resp.Codes})
+			return
+		}
+	}
 	if status == 0 {
 		violate("no-response:"+endpoint, fmt.Sprintf("%s router: handler of %s returned without writing any response", rn, endpoint), nil)
 		return
